@@ -237,7 +237,6 @@ def gen_world(r, knobs=None):
                     p['dtype'] = fam
                 if fam == 'str' and r.random() < 0.15:
                     p['dtype'] = 'Path'
-                    p['dpd'] = False
                 if fam == 'placeholder':
                     p['placeholder'] = True
                     p['dpd'] = False
